@@ -22,16 +22,18 @@ func newCandidatePair(local, remote Candidate, controlling bool) *CandidatePair 
 
 // CandidatePair is a combination of a local and remote candidate.
 type CandidatePair struct {
-	id                       uint64
-	iceRoleControlling       bool
-	Remote                   Candidate
-	Local                    Candidate
-	priorityOverride         uint64
-	hasPriorityOverride      bool
-	bindingRequestCount      uint16
-	state                    CandidatePairState
-	nominated                bool
-	nominateOnBindingSuccess bool
+	id                 uint64
+	iceRoleControlling bool
+	Remote             Candidate
+	Local              Candidate
+	// remotePriorityOverride is the priority of the remote candidate this pair was formed
+	// with, kept when that (peer-reflexive) candidate is replaced by the signalled one.
+	remotePriorityOverride    uint32
+	hasRemotePriorityOverride bool
+	bindingRequestCount       uint16
+	state                     CandidatePairState
+	nominated                 bool
+	nominateOnBindingSuccess  bool
 	// nominationValueOnBindingSuccess is the renomination value carried by the
 	// deferred nomination, nil for a standard (USE-CANDIDATE only) nomination.
 	nominationValueOnBindingSuccess *uint32
@@ -89,9 +91,18 @@ func (p *CandidatePair) equal(other *CandidatePair) bool {
 	return p.Local.Equal(other.Local) && p.Remote.Equal(other.Remote)
 }
 
-func (p *CandidatePair) setPriorityOverride(prio uint64) {
-	p.priorityOverride = prio
-	p.hasPriorityOverride = true
+func (p *CandidatePair) setRemotePriorityOverride(prio uint32) {
+	p.remotePriorityOverride = prio
+	p.hasRemotePriorityOverride = true
+}
+
+// remotePriority is the remote candidate priority the pair priority is computed from.
+func (p *CandidatePair) remotePriority() uint32 {
+	if p.hasRemotePriorityOverride {
+		return p.remotePriorityOverride
+	}
+
+	return p.Remote.Priority()
 }
 
 // RFC 5245 - 5.7.2.  Computing Pair Priority and Ordering Pairs
@@ -100,16 +111,12 @@ func (p *CandidatePair) setPriorityOverride(prio uint64) {
 // controlled agent.
 // pair priority = 2^32*MIN(G,D) + 2*MAX(G,D) + (G>D?1:0).
 func (p *CandidatePair) priority() uint64 {
-	if p.hasPriorityOverride {
-		return p.priorityOverride
-	}
-
 	var g, d uint32 //nolint:varnamelen // clearer to use g and d here
 	if p.iceRoleControlling {
 		g = p.Local.Priority()
-		d = p.Remote.Priority()
+		d = p.remotePriority()
 	} else {
-		g = p.Remote.Priority()
+		g = p.remotePriority()
 		d = p.Local.Priority()
 	}
 
